@@ -820,14 +820,14 @@ Section FinalNum.
     - rewrite Hr. split; [reflexivity | discriminate].
     - unfold live_try in Hlt. rewrite Hmode in Hlt. cbn [N.eqb] in Hlt.
       destruct (h_ready (w_hub w)) eqn:Hrd; cbn [negb] in Hlt; [|discriminate].
-      rewrite (seen_final c _ Hfilter) in Hro.
+      rewrite (seen_final c _ Hfilter), (start_mem_num c Hmode) in Hro.
       apply (Hraw _ _ Hro). exact (final_live burst k Hrd Hlt).
     - rewrite Hr. split; [reflexivity | discriminate].
     - apply map_eq_app in Ef as (Dpre & D2 & ED & Epre & E2). apply map_eq_cons in E2 as (bn & D' & ED2 & Ebn & _).
-      subst pre e D2. rewrite (seen_final c _ Hfilter) in Hro.
+      subst pre e D2. rewrite (seen_final c _ Hfilter), (start_mem_num c Hmode) in Hro.
       apply (Hraw _ _ Hro). exact (final_join m Dpre bn D' lowest burst k ED Hj).
     - (* files only: every file event is new+irreversible, numbers ascending: the memory drops nothing *)
-      rewrite (seen_final c _ Hfilter) in Hfo.
+      rewrite (seen_final c _ Hfilter), (start_mem_num c Hmode) in Hfo.
       destruct (lnk_of_chain_ok D D_ok') as [x0 HlD].
       assert (HDU : Forall (fun y => In y U) D).
       { apply Forall_forall. intros y Hy. apply HmU. apply D_in' in Hy. tauto. }
